@@ -21,7 +21,23 @@ use std::sync::mpsc;
 use std::sync::Arc;
 use std::time::Duration;
 
+/// a format function that fails for marked records AFTER having written a part of the line (legal for a
+/// FormatFunction); the part is "~~~", which decodes as an anonymous record
+fn fmt_failing(w: &mut dyn Write, _now: &mut flexi_logger::DeferredNow, r: &log::Record) -> std::io::Result<()> {
+    let m = r.args().to_string();
+    if m.starts_with('\u{1}') {
+        write!(w, "~~~")?;
+        return Err(std::io::Error::other("format function rejects this record"));
+    }
+    write!(w, "{}", m)
+}
+
 fn build(cfg: &Cfg, out: &str, root: &Path, errfile: &Path) -> Result<(Box<dyn Log>, LoggerHandle), String> {
+    build2(cfg, out, root, errfile, false)
+}
+
+fn build2(cfg: &Cfg, out: &str, root: &Path, errfile: &Path, failfmt: bool) -> Result<(Box<dyn Log>, LoggerHandle), String> {
+    let fmt_plain: flexi_logger::FormatFunction = if failfmt { fmt_failing } else { fmt_plain };
     let mut l = Logger::with(LogSpecification::trace())
         .format(fmt_plain)
         .write_mode(flw::write_mode(cfg))
@@ -44,9 +60,16 @@ fn build(cfg: &Cfg, out: &str, root: &Path, errfile: &Path) -> Result<(Box<dyn L
     l.build().map_err(|e| format!("{e:?}"))
 }
 
+pub fn fails(tid: u64, seq: u64) -> bool {
+    (tid * 7 + seq) % 11 == 0
+}
+
 fn log_one(l: &dyn Log, tid: u64, seq: u64, len: usize) {
     let id = tid * 100_000 + seq;
-    let msg = obs::message(id, len.max(9), 1);
+    let mut msg = obs::message(id, len.max(9), 1);
+    if FAILFMT.load(Ordering::Relaxed) && fails(tid, seq) {
+        msg = format!("\u{1}{msg}");
+    }
     l.log(
         &log::Record::builder()
             .args(format_args!("{}", msg))
@@ -56,6 +79,8 @@ fn log_one(l: &dyn Log, tid: u64, seq: u64, len: usize) {
             .build(),
     );
 }
+
+static FAILFMT: std::sync::atomic::AtomicBool = std::sync::atomic::AtomicBool::new(false);
 
 fn lens_of(sc: &Value) -> Vec<usize> {
     sc["lens"]
@@ -179,7 +204,9 @@ pub fn run_child(args: &[String]) {
     let sc: Value = serde_json::from_str(&std::fs::read_to_string(&args[2]).unwrap()).unwrap();
     let cfg = Cfg::from_json(&sc["cfg"]);
     let out = sc["out"].as_str().unwrap_or("stdout");
-    let (logger, handle) = match build(&cfg, out, Path::new("/nonexistent"), Path::new(&args[3])) {
+    let failfmt = sc["failfmt"].as_bool().unwrap_or(false);
+    FAILFMT.store(failfmt, Ordering::SeqCst);
+    let (logger, handle) = match build2(&cfg, out, Path::new("/nonexistent"), Path::new(&args[3]), failfmt) {
         Ok(x) => x,
         Err(e) => {
             eprintln!("BUILD-ERROR {e}");
@@ -230,6 +257,7 @@ pub fn run(args: &[String]) {
         let begin = json!({"sc": scid, "n": 1, "ev": "Begin", "kind": kind, "out": out, "cfg": sc["cfg"],
             "threads": sc.get("threads").cloned().unwrap_or(json!(0)), "per": sc.get("per").cloned().unwrap_or(json!(0)),
             "steps": sc.get("steps").cloned().unwrap_or(json!([])), "origin": sc.get("origin").cloned().unwrap_or(json!("")),
+            "failfmt": sc.get("failfmt").cloned().unwrap_or(json!(false)),
             "norm": {"mode": cfg.mode, "naming": cfg.naming, "rot": cfg.rot, "clean": cfg.clean(), "out": out, "kind": kind}});
         writeln!(outw, "{}", begin).unwrap();
         let mut ev = json!({"sc": scid, "n": 2, "ev": "Final"});
@@ -237,7 +265,9 @@ pub fn run(args: &[String]) {
             h().set_clock(1000);
             h().reset_bt();
             flw::set_error_channel(&errfile);
-            match build(&cfg, "file", &dir, &errfile) {
+            let failfmt = sc["failfmt"].as_bool().unwrap_or(false);
+            FAILFMT.store(failfmt, Ordering::SeqCst);
+            match build2(&cfg, "file", &dir, &errfile, failfmt) {
                 Ok((logger, handle)) => {
                     let logger = Arc::new(logger);
                     let (ret, blocked) = drive(&sc, logger.clone());
